@@ -11,9 +11,9 @@ import (
 type Expr interface{}
 
 type (
-	Lit    struct{ S string } // 1, "s", nil, true
-	Var    struct{ N string }
-	Bin    struct {
+	Lit struct{ S string } // 1, "s", nil, true
+	Var struct{ N string }
+	Bin struct {
 		Op   string
 		L, R Expr
 	}
@@ -87,7 +87,6 @@ type Prog struct {
 type printer struct {
 	sfx   string
 	lines []string
-	meths map[string]bool
 }
 
 var prec = map[string]int{"||": 1, "&&": 2, "==": 3, "!=": 3, "<": 4, "<=": 4, ">": 4, ">=": 4, "+": 5, "-": 5, "*": 6, "%": 6}
